@@ -130,7 +130,7 @@ def explore(ck: Check, scale: int) -> None:
     ck.compare_streams("estruct.unpack vs Decode.unpack", inputs, impl, model)
 
     # ---- through the whole stack: copybook -> schema -> EBCDIC().nav(...).name(f).value()
-    nav_roundtrip(ck, 20 * scale)
+    nav_roundtrip(ck, 200 * scale)
     ck.sample({"usage": "COMP-3", "picture": "S999V99", "buffer": "12345d", "value": impl_unpack("COMP-3", "S999V99", bytes.fromhex("12345d"))})
     ck.sample({"usage": "DISPLAY", "picture": "X", "buffer": "25", "value": impl_unpack("DISPLAY", "X", b"\x25")})
 
@@ -143,13 +143,16 @@ def nav_roundtrip(ck: Check, n: int) -> None:
 
     rng = ck.rng
     for _ in range(n):
-        nd = rng.randint(1, 9)
+        nd = rng.choice([1, 2, 3, 4, 5, 6, 7, 8, 9, 10, 12, 15, 18])
         frac = rng.randint(0, nd)
         digits = [rng.randrange(10) for _ in range(nd)]
         sn = rng.choice(SIGN_NIBBLES)
         kind = rng.choice(["packed", "zoned", "binary"])
         if kind == "packed":
-            pic, usage, buf = picture(True, nd - frac, frac), "COMP-3", enc_packed(digits, sn)
+            signed = rng.random() < 0.5
+            if not signed:
+                sn = 0xF      # an unsigned packed item still stores a sign nibble: F
+            pic, usage, buf = picture(signed, nd - frac, frac), rng.choice(["COMP-3", "PACKED-DECIMAL", "COMPUTATIONAL-3"]), enc_packed(digits, sn)
             want: Any = spec_value(digits, sn in NEG_NIBBLES, frac)
         elif kind == "zoned":
             pic, usage, buf = picture(False, nd - frac, frac), "DISPLAY", enc_zoned(digits, [0xF] * nd, sn)
